@@ -695,7 +695,7 @@ Lemma repetition_filter_length : forall g ms,
 Proof.
   intros g ms. unfold repetition_filter.
   destruct (g_moves g) as [|m1 [|m2 [|m3 [|m4 [|m5 t]]]]]; try lia.
-  destruct (move_eqb m1 m5); [|lia]. unfold swap_remove_move.
+  destruct (move_eqb m1 m5 && is_reversal m4 m2 && is_reversal m5 m3); [|lia]. unfold swap_remove_move.
   destruct (replace_first ms m4 (last ms m4)) as [r|] eqn:E; [|lia].
   apply replace_first_length in E. lia.
 Qed.
